@@ -128,12 +128,12 @@ def load_cases(ctx, mode='run', n=None, profile='default'):
     return [Case(k, v, model.get(k)) for k, v in impl.items()]
 
 
-def load_corpus(ctx, prop_id):
+def load_corpus(ctx, prop_id, mode='file'):
     """minimised past failures (and seeds of interest) for this property; they run first"""
     import glob
     out = []
     for f in sorted(glob.glob(os.path.join(vcheck.VERIF, 'corpus', prop_id, '*.case'))):
-        impl, model = harness_run(ctx, 'file', 0, extra=[f], tag='corpus-%s-%s' % (prop_id, os.path.basename(f)))
+        impl, model = harness_run(ctx, mode, 0, extra=[f], tag='corpus-%s-%s-%s' % (mode, prop_id, os.path.basename(f)))
         if impl is None:
             continue
         for k, v in impl.items():
@@ -970,10 +970,13 @@ def pair_lines(case):
     return [l for l in case.lines if l.startswith('pair ')]
 
 
-def pair_family(ctx, prop_id, mode, profile, n, kinds, rule, extra=None, also_s5=True, diff_known=None):
+def pair_family(ctx, prop_id, mode, profile, n, kinds, rule, extra=None, also_s5=True, diff_known=None, corpus_mode=None):
     ob, dis, details = proof_obligations(ctx, prop_id)
     profiles = profile if isinstance(profile, (list, tuple)) else [(profile, n)]
     cases = None
+    if corpus_mode:
+        cases = load_corpus(ctx, prop_id, corpus_mode)
+        ctx.cov['corpus_cases'] = len(cases)
     for ent in profiles:
         m, prof, cnt = ent if len(ent) == 3 else (mode,) + tuple(ent)
         cs = load_cases(ctx, m, cnt, prof)
@@ -1028,7 +1031,8 @@ def c13(ctx):
             'parameter added to the final function / a Required provider / invoke / init; chains with named edits (edit generator) with each '
             'run of equal directives applied to a sub-collection instead of to each member; compared: bind verdict class, included providers, '
             'full call trace (Unused arguments stripped); evaluations = pairs compared; distinct = (variant kind, provider list)')
-    return pair_family(ctx, 'C13', 'neutral', [('neutral', 'default', n), ('editcoll', 'default', n)], n, None, rule, also_s5=False)
+    return pair_family(ctx, 'C13', 'neutral', [('neutral', 'default', n), ('editcoll', 'default', n)], n, None, rule, also_s5=False,
+                       corpus_mode='neutralfile')
 
 
 @prop('C16')
